@@ -13,6 +13,9 @@ use std::slice::Chunks;
 verus! {
 
 #[verifier::external_type_specification] #[verifier::external_body] pub struct ExIoError(std::io::Error);
+// TRUSTED: std::io::ErrorKind is a plain enum; `io::Error::from(kind)` builds an error value and never panics
+#[verifier::external_type_specification] pub struct ExErrorKind(std::io::ErrorKind);
+pub assume_specification [<std::io::Error as From<std::io::ErrorKind>>::from] (k: std::io::ErrorKind) -> std::io::Error;
 //@@ item src/cfb.rs enum CfbError
 //@@ item src/vba.rs enum VbaError
 pub mod cfb { pub use super::CfbError; pub use super::vb::XlsEncoding; }
@@ -191,6 +194,24 @@ verif_opaque_string()
         rgce@.len() >= 1 && !is_ref3d(rgce@[0]) && !is_area3d(rgce@[0]) && !is_referr3d(rgce@[0]) && !is_areaerr3d(rgce@[0]) ==> (res matches Ok(p) && p.0 is None),
 //@@ body
     let ghost g = rgce@;
+//@@ before /let ixti = /#0of3
+            proof {
+                // PtgRef3d is 7 bytes (ptg, ixti, row, column); only `rgce.is_empty()` was tested
+                //# C06.ref3d_token_truncated
+                assert(g.len() >= 7);
+            }
+//@@ before /let ixti = /#1of3
+            proof {
+                // PtgArea3d is 11 bytes (ptg, ixti, rowFirst, rowLast, columnFirst, columnLast)
+                //# C06.area3d_token_truncated
+                assert(g.len() >= 11);
+            }
+//@@ before /let ixti = /#2of3
+            proof {
+                // PtgRefErr3d / PtgAreaErr3d: ixti is read from bytes 1..3
+                //# C06.err3d_token_truncated
+                assert(g.len() >= 3);
+            }
 //@@ before /push_column\(/#0of3
             let ghost c0 = f@;
 //@@ after /push_column\([^;]*;/#0of3
@@ -307,6 +328,7 @@ pub open spec fn var_fld(t: Seq<u8>) -> Option<(Seq<u8>, Seq<u8>)> {
 /// a 2-byte id / reserved field with a fixed value
 pub open spec fn expect_id(t: Seq<u8>, id: int) -> Option<Seq<u8>> { if t.len() >= 2 && le16(t) == id { Some(t.skip(2)) } else { None } }
 /// 2.3.4.2.2.2 REFERENCENAME after its Id 0x0016: SizeOfName, Name, Reserved 0x003E, SizeOfNameUnicode, NameUnicode: (Name, rest)
+#[verifier::opaque]
 pub open spec fn name_rec(b: Seq<u8>) -> Option<(Seq<u8>, Seq<u8>)> {
     match var_fld(b) {
         Some((n, r1)) => match expect_id(r1, 0x003E) {
@@ -317,13 +339,16 @@ pub open spec fn name_rec(b: Seq<u8>) -> Option<(Seq<u8>, Seq<u8>)> {
     }
 }
 /// 2.3.4.2.2.4 REFERENCEORIGINAL after its Id 0x0033: SizeOfLibidOriginal, LibidOriginal
+#[verifier::opaque]
 pub open spec fn original_rest(b: Seq<u8>) -> Option<Seq<u8>> { match var_fld(b) { Some((_, r)) => Some(r), None => None } }
 /// 2.3.4.2.2.5 REFERENCEREGISTERED after its Id 0x000D: Size (4), SizeOfLibid, Libid, Reserved1 (4), Reserved2 (2)
+#[verifier::opaque]
 pub open spec fn registered_rest(b: Seq<u8>) -> Option<Seq<u8>> {
     match skip_n(b, 4) { Some(r1) => match var_fld(r1) { Some((_, r2)) => skip_n(r2, 6), None => None }, None => None }
 }
 /// 2.3.4.2.2.6 REFERENCEPROJECT after its Id 0x000E: Size (4), SizeOfLibidAbsolute, LibidAbsolute, SizeOfLibidRelative, LibidRelative,
 /// MajorVersion (4), MinorVersion (2)
+#[verifier::opaque]
 pub open spec fn project_rest(b: Seq<u8>) -> Option<Seq<u8>> {
     match skip_n(b, 4) {
         Some(r1) => match var_fld(r1) { Some((_, r2)) => match var_fld(r2) { Some((_, r3)) => skip_n(r3, 6), None => None }, None => None },
@@ -332,6 +357,7 @@ pub open spec fn project_rest(b: Seq<u8>) -> Option<Seq<u8>> {
 }
 /// 2.3.4.2.2.3 REFERENCECONTROL after its Id 0x002F: SizeTwiddled (4), SizeOfLibidTwiddled, LibidTwiddled, Reserved1 (4), Reserved2 (2),
 /// [NameRecordExtended = REFERENCENAME], Reserved3 0x0030
+#[verifier::opaque]
 pub open spec fn control_head(b: Seq<u8>) -> Option<Seq<u8>> {
     match skip_n(b, 4) {
         Some(r1) => match var_fld(r1) {
@@ -347,6 +373,7 @@ pub open spec fn control_head(b: Seq<u8>) -> Option<Seq<u8>> {
     }
 }
 /// .. SizeExtended (4), SizeOfLibidExtended, LibidExtended, Reserved4 (4), Reserved5 (2), OriginalTypeLib (16), Cookie (4)
+#[verifier::opaque]
 pub open spec fn control_rest(b: Seq<u8>) -> Option<Seq<u8>> {
     match control_head(b) {
         Some(r5) => match skip_n(r5, 4) { Some(r6) => match var_fld(r6) { Some((_, r7)) => skip_n(r7, 26), None => None }, None => None },
@@ -355,6 +382,7 @@ pub open spec fn control_rest(b: Seq<u8>) -> Option<Seq<u8>> {
 }
 /// what the item at the head of t is: None = malformed; Some((name, rest)): name = Some(payload) for a REFERENCENAME record;
 /// rest = None for the PROJECTMODULES record (Id 0x000F) that ends the array
+#[verifier::opaque]
 pub open spec fn ref_item(t: Seq<u8>) -> Option<(Option<Seq<u8>>, Option<Seq<u8>>)> {
     if t.len() < 2 { None } else {
         let id = le16(t);
@@ -368,17 +396,20 @@ pub open spec fn ref_item(t: Seq<u8>) -> Option<(Option<Seq<u8>>, Option<Seq<u8>
         else { None }
     }
 }
-/// the Name payloads of the REFERENCENAME records of the reference array that starts at t, in stream order, up to the PROJECTMODULES
-/// record (None: the array is malformed or truncated)
-pub open spec fn ref_names(t: Seq<u8>) -> Option<Seq<Seq<u8>>>
+pub open spec fn opt_seq<T>(o: Option<T>) -> Seq<T> { match o { Some(x) => seq![x], None => Seq::<T>::empty() } }
+pub open spec fn prepend(done: Seq<Seq<u8>>, w: Option<(Seq<Seq<u8>>, Seq<u8>)>) -> Option<(Seq<Seq<u8>>, Seq<u8>)> {
+    match w { Some(x) => Some((done + x.0, x.1)), None => None }
+}
+/// the reference array that starts at t: (the Name payloads of its REFERENCENAME records in stream order, the stream suffix behind the Id
+/// 0x000F of the PROJECTMODULES record that ends it); None: the array is malformed or truncated
+#[verifier::opaque]
+pub open spec fn ref_walk(t: Seq<u8>) -> Option<(Seq<Seq<u8>>, Seq<u8>)>
     decreases t.len()
 {
     match ref_item(t) {
         None => None,
-        Some((n, None)) => Some(Seq::empty()),
-        Some((n, Some(r))) => if r.len() < t.len() {
-            match ref_names(r) { Some(ns) => Some((match n { Some(x) => seq![x], None => Seq::empty() }) + ns), None => None }
-        } else { None },
+        Some((n, None)) => Some((Seq::empty(), t.skip(2))),
+        Some((n, Some(r))) => if r.len() < t.len() { prepend(opt_seq(n), ref_walk(r)) } else { None },
     }
 }
 /// [MS-OVBA] 2.3.4.2.2.2: Name "MUST conform to VBA identifier naming rules" -- in particular it is not empty
@@ -395,41 +426,86 @@ spec fn pend_ok(refs: Seq<Reference>, cur: Reference, done: Seq<Seq<u8>>, cp: u1
 spec fn prefix_ok(refs: Seq<Reference>, done: Seq<Seq<u8>>, cp: u16) -> bool {
     forall|j: int| 0 <= j < refs.len() ==> j < done.len() && (#[trigger] refs[j]).name@ == decoded(cp, done[j])
 }
-
-// TRUSTED: proved in unit vbadec on the real text (C18.var_record, var_record_err_only_if_no_size; its possible panic is the registered
-// finding vbadec/read_variable_record/assert:len <= r@.len())
-#[verifier::external_body]
-fn read_variable_record<'a>(r: &mut &'a [u8], mult: usize) -> (res: Result<&'a [u8], VbaError>)
-    requires mult == 1,
-    ensures
-        res matches Ok(rec) ==> (old(r)@.len() >= 4 + le32(old(r)@) && rec@ == old(r)@.subrange(4, 4 + le32(old(r)@)) && final(r)@ == old(r)@.skip(4 + le32(old(r)@))),
-        res is Err ==> old(r)@.len() < 4,
-{ unimplemented!() }
-// TRUSTED: proved in unit vbadec on the real text (C18.check_record_ok)
-#[verifier::external_body]
-fn check_record(id: u16, r: &mut &[u8]) -> (res: Result<(), VbaError>)
-    ensures res is Ok ==> old(r)@.len() >= 2 && le16(old(r)@) == id && final(r)@ == old(r)@.skip(2),
-{ unimplemented!() }
-// TRUSTED: proved in unit vbadec on the real text (C18.check_var_record_ok)
-#[verifier::external_body]
-fn check_variable_record<'a>(id: u16, r: &mut &'a [u8]) -> (res: Result<&'a [u8], VbaError>)
-    ensures
-        res matches Ok(rec) ==> (old(r)@.len() >= 6 && le16(old(r)@) == id
-            && old(r)@.len() >= 6 + le32(old(r)@.skip(2))
-            && rec@ == old(r)@.subrange(6, 6 + le32(old(r)@.skip(2)))
-            && final(r)@ == old(r)@.skip(6 + le32(old(r)@.skip(2)))),
-{ unimplemented!() }
-
-pub open spec fn opt_seq<T>(o: Option<T>) -> Seq<T> { match o { Some(x) => seq![x], None => Seq::<T>::empty() } }
-/// one unfolding of ref_names
-proof fn lemma_ref_step(t: Seq<u8>)
-    requires ref_names(t) is Some,
-    ensures
-        ref_item(t) is Some,
-        ref_item(t)->Some_0.1 is None ==> ref_names(t)->Some_0 == Seq::<Seq<u8>>::empty(),
-        ref_item(t)->Some_0.1 matches Some(r) ==> r.len() < t.len() && ref_names(r) is Some
-            && ref_names(t)->Some_0 == opt_seq(ref_item(t)->Some_0.0) + ref_names(r)->Some_0,
-{}
+/// one unfolding of ref_walk at an item that is not the end of the array
+proof fn lemma_walk_step(t: Seq<u8>, n: Option<Seq<u8>>, r: Seq<u8>, done: Seq<Seq<u8>>)
+    requires ref_item(t) == Some((n, Some(r))), r.len() < t.len(),
+    ensures prepend(done, ref_walk(t)) == prepend(done + opt_seq(n), ref_walk(r)),
+{
+    reveal(ref_walk);
+    match ref_walk(r) {
+        Some(x) => { assert(done + (opt_seq(n) + x.0) =~= (done + opt_seq(n)) + x.0); }
+        None => {}
+    }
+}
+proof fn lemma_walk_end(t: Seq<u8>, done: Seq<Seq<u8>>)
+    requires t.len() >= 2, le16(t) == 0x000F,
+    ensures prepend(done, ref_walk(t)) == Some((done, t.skip(2))),
+{
+    reveal(ref_walk); reveal(ref_item);
+    assert(done + Seq::<Seq<u8>>::empty() =~= done);
+}
+// ---- what the successful reads of one arm of from_stream say about the item at t (q1, q2, ..: the cursor after each read)
+proof fn lemma_item_name(t: Seq<u8>, r1: Seq<u8>, fin: Seq<u8>)
+    requires
+        t.len() >= 2, le16(t) == 0x0016,
+        t.skip(2).len() >= 4 + le32(t.skip(2)), r1 == t.skip(2).skip(4 + le32(t.skip(2))),
+        r1.len() >= 6, le16(r1) == 0x003E, r1.len() >= 6 + le32(r1.skip(2)), fin == r1.skip(6 + le32(r1.skip(2))),
+    ensures ref_item(t) == Some((Some(t.skip(2).subrange(4, 4 + le32(t.skip(2)))), Some(fin))), fin.len() < t.len(),
+{
+    reveal(ref_item); reveal(name_rec);
+    lemma_var_after_id(r1, 0x003E);
+}
+proof fn lemma_item_original(t: Seq<u8>, fin: Seq<u8>)
+    requires t.len() >= 2, le16(t) == 0x0033, t.skip(2).len() >= 4 + le32(t.skip(2)), fin == t.skip(2).skip(4 + le32(t.skip(2))),
+    ensures ref_item(t) == Some((None::<Seq<u8>>, Some(fin))), fin.len() < t.len(),
+{
+    reveal(ref_item); reveal(original_rest);
+}
+proof fn lemma_item_registered(t: Seq<u8>, q1: Seq<u8>, q2: Seq<u8>, fin: Seq<u8>)
+    requires
+        t.len() >= 2, le16(t) == 0x000D, t.skip(2).len() >= 4, q1 == t.skip(2).skip(4),
+        q1.len() >= 4 + le32(q1), q2 == q1.skip(4 + le32(q1)), q2.len() >= 6, fin == q2.skip(6),
+    ensures ref_item(t) == Some((None::<Seq<u8>>, Some(fin))), fin.len() < t.len(),
+{
+    reveal(ref_item); reveal(registered_rest);
+}
+proof fn lemma_item_project(t: Seq<u8>, q1: Seq<u8>, q2: Seq<u8>, q3: Seq<u8>, fin: Seq<u8>)
+    requires
+        t.len() >= 2, le16(t) == 0x000E, t.skip(2).len() >= 4, q1 == t.skip(2).skip(4),
+        q1.len() >= 4 + le32(q1), q2 == q1.skip(4 + le32(q1)), q2.len() >= 4 + le32(q2), q3 == q2.skip(4 + le32(q2)), q3.len() >= 6, fin == q3.skip(6),
+    ensures ref_item(t) == Some((None::<Seq<u8>>, Some(fin))), fin.len() < t.len(),
+{
+    reveal(ref_item); reveal(project_rest);
+}
+/// REFERENCECONTROL up to Reserved3, without / with the optional NameRecordExtended
+proof fn lemma_control_head_plain(b: Seq<u8>, q1: Seq<u8>, q2: Seq<u8>, q3: Seq<u8>, q5: Seq<u8>)
+    requires
+        b.len() >= 4, q1 == b.skip(4), q1.len() >= 4 + le32(q1), q2 == q1.skip(4 + le32(q1)), q2.len() >= 6, q3 == q2.skip(6),
+        q3.len() >= 2, le16(q3) == 0x0030, q5 == q3.skip(2),
+    ensures control_head(b) == Some(q5), q5.len() < b.len(),
+{
+    reveal(control_head);
+}
+proof fn lemma_control_head_named(b: Seq<u8>, q1: Seq<u8>, q2: Seq<u8>, q3: Seq<u8>, x1: Seq<u8>, x2: Seq<u8>, q5: Seq<u8>)
+    requires
+        b.len() >= 4, q1 == b.skip(4), q1.len() >= 4 + le32(q1), q2 == q1.skip(4 + le32(q1)), q2.len() >= 6, q3 == q2.skip(6),
+        q3.len() >= 2, le16(q3) == 0x0016,
+        q3.skip(2).len() >= 4 + le32(q3.skip(2)), x1 == q3.skip(2).skip(4 + le32(q3.skip(2))),
+        x1.len() >= 6, le16(x1) == 0x003E, x1.len() >= 6 + le32(x1.skip(2)), x2 == x1.skip(6 + le32(x1.skip(2))),
+        x2.len() >= 2, le16(x2) == 0x0030, q5 == x2.skip(2),
+    ensures control_head(b) == Some(q5), q5.len() < b.len(),
+{
+    reveal(control_head); reveal(name_rec);
+    lemma_var_after_id(x1, 0x003E);
+}
+proof fn lemma_item_control(t: Seq<u8>, q5: Seq<u8>, q6: Seq<u8>, q7: Seq<u8>, fin: Seq<u8>)
+    requires
+        t.len() >= 2, le16(t) == 0x002F, control_head(t.skip(2)) == Some(q5), q5.len() < t.skip(2).len(),
+        q5.len() >= 4, q6 == q5.skip(4), q6.len() >= 4 + le32(q6), q7 == q6.skip(4 + le32(q6)), q7.len() >= 26, fin == q7.skip(26),
+    ensures ref_item(t) == Some((None::<Seq<u8>>, Some(fin))), fin.len() < t.len(),
+{
+    reveal(ref_item); reveal(control_rest);
+}
 /// a size-prefixed field behind a 2-byte id, as check_variable_record reads it
 proof fn lemma_var_after_id(r1: Seq<u8>, id: int)
     requires r1.len() >= 6, le16(r1) == id, r1.len() >= 6 + le32(r1.skip(2)),
@@ -441,16 +517,63 @@ proof fn lemma_var_after_id(r1: Seq<u8>, id: int)
     assert(r1.skip(2).subrange(4, 4 + n) =~= r1.subrange(6, 6 + n));
     assert(r1.skip(2).skip(4 + n) =~= r1.skip(6 + n));
 }
-proof fn lemma_skip_skip(t: Seq<u8>, a: int, b: int)
-    requires 0 <= a, 0 <= b, a + b <= t.len(),
-    ensures t.skip(a).skip(b) == t.skip(a + b),
-{
-    assert(t.skip(a).skip(b) =~= t.skip(a + b));
-}
-proof fn lemma_slice_from(t: Seq<u8>, n: int)
-    requires 0 <= n <= t.len(),
-    ensures t.subrange(n, t.len() as int) == t.skip(n),
-{}
+
+// TRUSTED: `log_enabled!(Level::Warn)` is an opaque boolean (state of the global logger); only guards a `warn!` statement
+#[verifier::external_body]
+fn verif_log_enabled() -> bool { false }
+
+// ---- the cursor helpers of src/vba.rs, verbatim (the same text is under contract in unit vbadec; extracted again because from_stream's
+// contract needs them as callees)
+//@@ fn src/vba.rs skip props=C18 ret=res
+//@@ sig
+    ensures
+        //# C18.skip_ok
+        res is Ok ==> old(stream)@.len() >= n && final(stream)@ == old(stream)@.skip(n as int),
+        //# C18.skip_err_iff_short
+        res is Err <==> old(stream)@.len() < n,
+//@@ end
+//@@ fn src/vba.rs read_variable_record props=C18 ret=res
+//@@ sig
+    // every call site in src/vba.rs passes mult == 1
+    requires mult == 1,
+    ensures
+        //# C18.var_record
+        res matches Ok(rec) ==> (old(r)@.len() >= 4 + le32(old(r)@) && rec@ == old(r)@.subrange(4, 4 + le32(old(r)@)) && final(r)@ == old(r)@.skip(4 + le32(old(r)@))),
+        //# C18.var_record_err_iff_short
+        res is Err <==> (old(r)@.len() < 4 || old(r)@.len() < 4 + le32(old(r)@)),
+//@@ end
+proof fn witness_read_variable_record() ensures 1usize == 1 {}
+//@@ fn src/vba.rs check_record props=C18 ret=res
+//@@ sig
+    ensures
+        //# C18.check_record_ok
+        res is Ok ==> old(r)@.len() >= 2 && le16(old(r)@) == id && final(r)@ == old(r)@.skip(2),
+        //# C18.check_record_err
+        res is Err ==> old(r)@.len() < 2 || le16(old(r)@) != id,
+//@@ end
+//@@ fn src/vba.rs check_variable_record props=C18 ret=res
+//@@ replace /log_enabled!\(Level::Warn\)/ opaque boolean, guards only a dropped warn! statement
+verif_log_enabled()
+//@@ sig
+    ensures
+        //# C18.check_var_record_ok
+        res matches Ok(rec) ==> (old(r)@.len() >= 6 && le16(old(r)@) == id
+            && old(r)@.len() >= 6 + le32(old(r)@.skip(2))
+            && rec@ == old(r)@.subrange(6, 6 + le32(old(r)@.skip(2)))
+            && final(r)@ == old(r)@.skip(6 + le32(old(r)@.skip(2)))),
+        //# C18.check_var_record_err
+        res is Err ==> (old(r)@.len() < 6 || le16(old(r)@) != id || old(r)@.len() < 6 + le32(old(r)@.skip(2))),
+//@@ body
+    let ghost r0 = r@;
+//@@ before /let record = /
+    proof { assert(r@ == r0.skip(2)); }
+//@@ before /Ok\(record\)/
+    proof {
+        let n = le32(r0.skip(2));
+        assert(r0.skip(2).subrange(4, 4 + n) =~= r0.subrange(6, 6 + n));
+        assert(r0.skip(2).skip(4 + n) =~= r0.skip(6 + n));
+    }
+//@@ end
 
 #[verifier::external_type_specification] #[verifier::external_body] pub struct ExPathBuf(std::path::PathBuf);
 use std::path::PathBuf;
@@ -469,57 +592,67 @@ pub assume_specification<P: std::str::pattern::Pattern> [str::strip_prefix::<P>]
 //@@ end
 //@@ fn src/vba.rs Reference::from_stream props=C18 ret=res
 //@@ sig
-    requires
-        // the reference array is well-formed: every record lies within the stream, reserved ids as specified, ended by PROJECTMODULES
-        // (what happens on other streams: unit vbadec, implicit obligations of its unconditional copy of this function)
-        ref_names(old(stream)@) is Some,
     ensures
+        //# C18.reference_array_wellformed_if_ok
+        res is Ok ==> ref_walk(old(stream)@) is Some,
         //# C18.reference_names_in_order
-        res matches Ok(refs) ==> (names_nonempty(ref_names(old(stream)@)->Some_0, encoding.cp) ==> names_match(refs@, ref_names(old(stream)@)->Some_0, encoding.cp)),
+        res matches Ok(refs) ==> (names_nonempty(ref_walk(old(stream)@)->Some_0.0, encoding.cp) ==> names_match(refs@, ref_walk(old(stream)@)->Some_0.0, encoding.cp)),
+        //# C18.reference_array_consumed
+        res is Ok ==> final(stream)@ == ref_walk(old(stream)@)->Some_0.1,
 //@@ body
     let ghost s0 = stream@;
-    let ghost all = ref_names(s0)->Some_0;
+    let ghost w0 = ref_walk(s0);
     let ghost cp = encoding.cp;
-    let ghost h = names_nonempty(all, cp);
+    let ghost h = w0 is Some && names_nonempty(w0->Some_0.0, cp);
     let ghost mut done: Seq<Seq<u8>> = Seq::empty();
 //@@ before /loop \{/
-        proof { assert(all =~= done + ref_names(stream@)->Some_0); }
+        proof {
+            reveal_strlit("");
+            match w0 { Some(x) => { assert(done + x.0 =~= x.0); } None => {} }
+            assert(w0 == prepend(done, ref_walk(stream@)));
+        }
 //@@ loop 0
             invariant_except_break
-                ref_names(stream@) is Some,
-                all == done + ref_names(stream@)->Some_0,
+                w0 == prepend(done, ref_walk(stream@)),
                 h ==> pend_ok(references@, reference, done, cp),
             invariant
-                cp == encoding.cp, h == names_nonempty(all, cp),
+                cp == encoding.cp, h == (w0 is Some && names_nonempty(w0->Some_0.0, cp)),
                 h ==> prefix_ok(references@, done, cp),
             ensures
-                h ==> names_match(references@, all, cp),
+                w0 == Some((done, stream@)),
+                h ==> names_match(references@, done, cp),
             decreases stream@.len(),
 //@@ after /loop \{/
             let ghost t = stream@;
             let ghost b = t.skip(2);
-            proof { lemma_ref_step(t); }
+            let ghost done_in = done;
+            proof {
+                // the Name read last belongs to the array: it is not empty under the hypothesis of the names clause
+                if h && done.len() > 0 {
+                    let x = ref_walk(t)->Some_0;
+                    assert(w0->Some_0.0 == done + x.0);
+                    assert(w0->Some_0.0[done.len() - 1] == done.last());
+                    assert(decoded(cp, done.last()).len() > 0);
+                }
+            }
 //@@ before /if !reference\.name\.is_empty\(\)/#0of2
                     proof {
                         // Id 0x000F: the PROJECTMODULES record ends the reference array
-                        assert(ref_names(t)->Some_0 =~= Seq::<Seq<u8>>::empty());
-                        assert(all =~= done);
+                        lemma_walk_end(t, done);
                     }
 //@@ before /break;/
-                    proof { assert(h ==> names_match(references@, all, cp)); }
-//@@ before /check_variable_record\(/#0of2
+                    proof { assert(h ==> names_match(references@, done, cp)); }
+//@@ after /read_variable_record\(stream, [^;]*;/#0of4
                     let ghost r1 = stream@;
 //@@ after /check_variable_record\([^;]*;/#0of2
                     proof {
-                        lemma_var_after_id(r1, 0x003E);
-                        let n = var_fld(b)->Some_0.0;
-                        assert(name_rec(b) == Some((n, stream@)));
-                        let done_in = done;
+                        let n = b.subrange(4, 4 + le32(b));
+                        lemma_item_name(t, r1, stream@);
+                        lemma_walk_step(t, Some(n), stream@, done);
                         done = done.push(n);
-                        assert(all =~= done + ref_names(stream@)->Some_0);
+                        assert(done =~= done_in + opt_seq(Some(n)));
                         assert(done.last() == n && done.len() == done_in.len() + 1);
                         if h {
-                            assert(all[done_in.len() as int] == n);
                             assert forall|j: int| 0 <= j < references@.len() implies j < done.len() && (#[trigger] references@[j]).name@ == decoded(cp, done[j]) by {
                                 if j < done_in.len() { assert(done[j] == done_in[j]); }
                             }
@@ -528,43 +661,65 @@ pub assume_specification<P: std::str::pattern::Pattern> [str::strip_prefix::<P>]
 //@@ after /reference\.set_libid\([^;]*;/#0of4
                     proof {
                         // REFERENCEORIGINAL
-                        assert(original_rest(b) == Some(stream@));
-                        assert(all =~= done + ref_names(stream@)->Some_0);
+                        lemma_item_original(t, stream@);
+                        lemma_walk_step(t, None, stream@, done);
+                        assert(done + opt_seq(None::<Seq<u8>>) =~= done);
                     }
-//@@ after /\*stream = &stream\[[^;]*;/#1of8
-                    let ghost r3 = stream@;
-//@@ before /check_variable_record\(/#1of2
+//@@ after /skip\(stream, [^;]*;/#0of8
+                    let ghost q1 = stream@;
+//@@ after /reference\.set_libid\([^;]*;/#1of4
+                    let ghost q2 = stream@;
+//@@ after /skip\(stream, [^;]*;/#1of8
+                    let ghost q3 = stream@;
+//@@ after /read_variable_record\(stream, [^;]*;/#1of4
                             let ghost x1 = stream@;
 //@@ after /check_variable_record\([^;]*;/#1of2
-                            proof { lemma_var_after_id(x1, 0x003E); }
-//@@ before /\*stream = &stream\[/#2of8
+                            let ghost x2 = stream@;
+//@@ after /check_record\([^;]*;/
+                            proof { lemma_control_head_named(b, q1, q2, q3, x1, x2, stream@); }
+//@@ before /skip\(stream, /#2of8
+                    let ghost q5 = stream@;
                     proof {
-                        assert(control_head(b) == Some(stream@));
+                        if le16(q3) != 0x0016 { lemma_control_head_plain(b, q1, q2, q3, q5); }
+                        assert(control_head(b) == Some(q5) && q5.len() < b.len());
                     }
-//@@ after /\*stream = &stream\[[^;]*;/#3of8
+//@@ after /skip\(stream, [^;]*;/#2of8
+                    let ghost q6 = stream@;
+//@@ after /reference\.set_libid\([^;]*;/#2of4
+                    let ghost q7 = stream@;
+//@@ after /skip\(stream, [^;]*;/#3of8
                     proof {
                         // REFERENCECONTROL
-                        assert(control_rest(b) == Some(stream@));
-                        assert(all =~= done + ref_names(stream@)->Some_0);
+                        lemma_item_control(t, q5, q6, q7, stream@);
+                        lemma_walk_step(t, None, stream@, done);
+                        assert(done + opt_seq(None::<Seq<u8>>) =~= done);
                     }
-//@@ after /\*stream = &stream\[[^;]*;/#5of8
+//@@ after /skip\(stream, [^;]*;/#4of8
+                    let ghost q1 = stream@;
+//@@ after /reference\.set_libid\([^;]*;/#3of4
+                    let ghost q2 = stream@;
+//@@ after /skip\(stream, [^;]*;/#5of8
                     proof {
                         // REFERENCEREGISTERED
-                        assert(registered_rest(b) == Some(stream@));
-                        assert(all =~= done + ref_names(stream@)->Some_0);
+                        lemma_item_registered(t, q1, q2, stream@);
+                        lemma_walk_step(t, None, stream@, done);
+                        assert(done + opt_seq(None::<Seq<u8>>) =~= done);
                     }
-//@@ after /\*stream = &stream\[[^;]*;/#7of8
+//@@ after /skip\(stream, [^;]*;/#6of8
+                    let ghost q1 = stream@;
+//@@ after /read_variable_record\(stream, [^;]*;/#2of4
+                    let ghost q2 = stream@;
+//@@ after /read_variable_record\(stream, [^;]*;/#3of4
+                    let ghost q3 = stream@;
+//@@ after /skip\(stream, [^;]*;/#7of8
                     proof {
                         // REFERENCEPROJECT
-                        assert(project_rest(b) == Some(stream@));
-                        assert(all =~= done + ref_names(stream@)->Some_0);
+                        lemma_item_project(t, q1, q2, q3, stream@);
+                        lemma_walk_step(t, None, stream@, done);
+                        assert(done + opt_seq(None::<Seq<u8>>) =~= done);
                     }
 //@@ end
 //@@ endimpl
-
-proof fn witness_from_stream()
-    ensures ref_names(seq![0x0Fu8, 0x00]) is Some,
-{}
 
 } // mod vb
 
